@@ -17,6 +17,10 @@
 (*   dependent                 --history + --history-size;  --scheme sets --tiebreak (DOCUMENTED exception to    *)
 (*                             "options are independent": --scheme=path "also sets --tiebreak=pathname,length") *)
 (*   exiting                   --help -h --version (last one wins among them)                                    *)
+(*   positional                --tmux[=SPEC] / --no-tmux against --height / --no-height: DOCUMENTED (ADVANCED.md, *)
+(*                             "--tmux is specified later so it takes precedence over --height"): the popup is    *)
+(*                             used iff --tmux is in force and was given after the --height in force, where       *)
+(*                             "after" is the word position counted across ALL sources (file, env, argv)          *)
 (* Exceptions to "last occurrence wins" found in the documentation: the cumulative options above; --scheme.      *)
 (* CODE-DERIVED: a missing value is an error of the source it occurs in (a value is never taken from the next    *)
 (* source); range checks of --tabstop happen at the end of each source; the width check of --pointer happens     *)
@@ -33,9 +37,10 @@ Render(w) == Str(Atoms(w))
 
 -------------------------------------------------------------------------------
 (* atoms with a numeric reading *)
-NumAtoms == {"0", "1", "2", "3", "5", "8", "10", "50", "99", "100", "255", "256", "1000", "-1"}
+NumAtoms == {"0", "1", "2", "3", "5", "8", "10", "30", "40", "50", "60", "80", "99", "100", "255", "256", "1000", "-1"}
 NumVal(a) == CASE a = "0" -> 0 [] a = "1" -> 1 [] a = "2" -> 2 [] a = "3" -> 3 [] a = "5" -> 5 [] a = "8" -> 8
-               [] a = "10" -> 10 [] a = "50" -> 50 [] a = "99" -> 99 [] a = "100" -> 100 [] a = "255" -> 255
+               [] a = "10" -> 10 [] a = "30" -> 30 [] a = "40" -> 40 [] a = "50" -> 50 [] a = "60" -> 60 [] a = "80" -> 80
+               [] a = "99" -> 99 [] a = "100" -> 100 [] a = "255" -> 255
                [] a = "256" -> 256 [] a = "1000" -> 1000 [] a = "-1" -> 0 - 1
 DigitStart == NumAtoms \ {"-1"}
 IsInt(v) == Len(v) = 1 /\ v[1] \in NumAtoms
@@ -51,13 +56,17 @@ TextLen(v) == IF v = <<RND>> THEN 3 ELSE Len(Str(v))
 MaxMulti == 2147483647
 DefaultPW == [pos |-> "right", hidden |-> FALSE, size |-> 50, percent |-> TRUE]
 DefaultHeight == [size |-> 0, percent |-> FALSE, auto |-> FALSE, inverse |-> FALSE]
+Sz(n, pct) == [size |-> n, percent |-> pct]
+NoTmux == [on |-> FALSE, pos |-> "", w |-> Sz(0, FALSE), h |-> Sz(0, FALSE), border |-> FALSE]
+DefaultTmux == [on |-> TRUE, pos |-> "center", w |-> Sz(50, TRUE), h |-> Sz(50, TRUE), border |-> FALSE]
 Undef == 0 - 2                                                  \* CODE-DERIVED: tui colUndefined
 Default == [multi |-> 0, sort |-> 1000, cycle |-> FALSE, tac |-> FALSE, fuzzy |-> TRUE, case |-> "smart",
             query |-> "", prompt |-> "> ", filter |-> "\\NIL", delimiter |-> "", criteria |-> <<>>, scheme |-> "",
             nth |-> <<>>, height |-> DefaultHeight, border |-> "undefined", fg |-> Undef, bg |-> Undef,
             pw |-> DefaultPW, expect |-> {}, keymap |-> EmptyKm, hon |-> FALSE, hpath |-> "", hsize |-> 1000,
             walker |-> [file |-> TRUE, dir |-> FALSE, hidden |-> TRUE, follow |-> TRUE], tabstop |-> 8,
-            pointer |-> <<"\\NIL">>, exit |-> ""]
+            pointer |-> <<"\\NIL">>, exit |-> "",
+            tmux |-> NoTmux, tidx |-> 0, hidx |-> 0]        \* tidx / hidx: word position of the --tmux / --height in force
 
 OK(c)  == [ok |-> TRUE, cfg |-> c]
 BAD    == [ok |-> FALSE]
@@ -156,18 +165,52 @@ Delimiter(v) == IF Len(Str(v)) = 1 \/ (\A i \in 1..Len(v) : v[i] \notin RegexSpe
                 THEN "str:" \o Str(v)
                 ELSE "re:" \o Str(v)                        \* every other word of the vocabulary is a valid regex
 
+(* --tmux[=[center|top|bottom|left|right][,SIZE[%]][,SIZE[%]][,border-native]]  (default center,50%)              *)
+(* tokens are separated by runs of "," / ":" (CODE-DERIVED: ":" too, and what malformed lists do)                 *)
+RECURSIVE RunTokens(_, _, _)
+RunTokens(v, cur, inRun) == IF v = <<>> THEN <<cur>>
+                            ELSE IF Head(v) \in {",", ":"}
+                                 THEN (IF inRun THEN <<>> ELSE <<cur>>) \o RunTokens(Tail(v), <<>>, TRUE)
+                            ELSE RunTokens(Tail(v), Append(cur, Head(v)), FALSE)
+TmuxSize(t) == IF Len(t) = 1 /\ t[1] \in DigitStart THEN [ok |-> TRUE, val |-> Sz(NumVal(t[1]), FALSE)]
+               ELSE IF Len(t) = 2 /\ t[1] \in DigitStart /\ t[2] = "%" /\ NumVal(t[1]) <= 100
+                    THEN [ok |-> TRUE, val |-> Sz(NumVal(t[1]), TRUE)]
+               ELSE [ok |-> FALSE]
+TmuxPosOf(a) == CASE a \in {"top", "up"} -> "up" [] a \in {"bottom", "down"} -> "down" [] a = "left" -> "left"
+                  [] a = "right" -> "right" [] a = "center" -> "center" [] OTHER -> ""
+FirstAt(ts, x) == IF \E n \in 1..Len(ts) : ts[n] = x
+                  THEN CHOOSE n \in 1..Len(ts) : ts[n] = x /\ \A m \in 1..(n - 1) : ts[m] # x ELSE 0
+Without(ts, n) == SubSeq(ts, 1, n - 1) \o SubSeq(ts, n + 1, Len(ts))
+Tmux(v) ==
+    LET t0 == RunTokens(v, <<>>, FALSE)
+        b  == FirstAt(t0, <<"border-native">>)
+        t1 == IF b = 0 THEN t0 ELSE Without(t0, b)
+        first == IF t1 = <<>> THEN <<"center">> ELSE t1[1]
+        named == Len(first) = 1 /\ TmuxPosOf(first[1]) # ""
+        pos == IF named THEN TmuxPosOf(first[1]) ELSE "center"
+        t2 == IF named \/ t1 = <<>> THEN t1 ELSE << <<"center">> >> \o t1      \* a list that starts with a size
+        s1 == IF Len(t2) > 1 THEN TmuxSize(t2[2]) ELSE [ok |-> TRUE, val |-> Sz(0, FALSE)]
+        s2 == IF Len(t2) = 3 THEN TmuxSize(t2[3]) ELSE [ok |-> TRUE, val |-> Sz(0, FALSE)]
+        full == Sz(100, TRUE)  half == Sz(50, TRUE)
+        w0 == IF pos \in {"up", "down"} THEN full ELSE half
+        h0 == IF pos \in {"left", "right"} THEN full ELSE half IN
+    IF Len(t0) > 4 \/ ~s1.ok \/ ~s2.ok THEN [ok |-> FALSE]
+    ELSE [ok |-> TRUE, val |-> [on |-> TRUE, pos |-> pos, border |-> b # 0,
+              w |-> IF Len(t2) = 3 THEN s1.val ELSE IF Len(t2) = 2 /\ pos \in {"left", "right", "center"} THEN s1.val ELSE w0,
+              h |-> IF Len(t2) = 3 THEN s2.val ELSE IF Len(t2) = 2 /\ pos \in {"up", "down", "center"} THEN s1.val ELSE h0]]
+
 -------------------------------------------------------------------------------
 (* options by spelling *)
 Canon(o) == CASE o = "-q" -> "--query" [] o = "-f" -> "--filter" [] o = "-d" -> "--delimiter" [] o = "-n" -> "--nth"
               [] o = "-m" -> "--multi" [] o = "-s" -> "--sort" [] OTHER -> o
 FlagSpell == {"--no-multi", "+m", "--no-sort", "+s", "--cycle", "--no-cycle", "--tac", "--no-tac", "-e", "--exact",
               "+e", "--no-exact", "-i", "--ignore-case", "+i", "--no-ignore-case", "--smart-case", "--no-expect",
-              "--no-history", "--no-height", "--no-border", "--help", "-h", "--version", "--"}
+              "--no-history", "--no-height", "--no-border", "--no-tmux", "--help", "-h", "--version", "--"}
 ReqSpell == {"--query", "-q", "--filter", "-f", "--prompt", "--delimiter", "-d", "--tiebreak", "--scheme", "--nth",
              "-n", "--height", "--history", "--history-size", "--walker", "--tabstop", "--pointer",
              "--preview-window", "--expect", "--bind"}
 OptNumSpell == {"--multi", "-m", "--sort", "-s"}
-OptStrSpell == {"--border", "--color"}
+OptStrSpell == {"--border", "--color", "--tmux"}
 AttSpell == {"-q", "-f", "-d", "-n", "-s", "-m"}
 Known(o) == o \in FlagSpell \cup ReqSpell \cup OptNumSpell \cup OptStrSpell
 
@@ -182,14 +225,15 @@ Flag(c, o) ==
       [] o = "--smart-case" -> [c EXCEPT !.case = "smart"]
       [] o = "--no-expect" -> [c EXCEPT !.expect = {}]
       [] o = "--no-history" -> [c EXCEPT !.hon = FALSE, !.hpath = ""]
-      [] o = "--no-height" -> [c EXCEPT !.height = DefaultHeight]
+      [] o = "--no-height" -> [c EXCEPT !.height = DefaultHeight, !.hidx = 0]
+      [] o = "--no-tmux" -> [c EXCEPT !.tmux = NoTmux, !.tidx = 0]
       [] o = "--no-border" -> [c EXCEPT !.border = "none"]
       [] o \in {"--help", "-h"} -> [c EXCEPT !.exit = "help"]
       [] o = "--version" -> [c EXCEPT !.exit = "version"]
       [] o = "--" -> c
 
-(* a required value v (atoms of the word that supplies it) for option o (canonical spelling) *)
-SetVal(c, o, v) ==
+(* a required value v (atoms of the word that supplies it) for option o (canonical spelling) written at word idx *)
+SetVal(c, o, v, idx) ==
     CASE o = "--query" -> OK([c EXCEPT !.query = Str(v)])
       [] o = "--filter" -> OK([c EXCEPT !.filter = Str(v)])
       [] o = "--prompt" -> OK([c EXCEPT !.prompt = Str(v)])
@@ -199,7 +243,7 @@ SetVal(c, o, v) ==
       [] o = "--scheme" -> IF Len(v) = 1 /\ v[1] \in {"default", "path", "history"}
                            THEN OK([c EXCEPT !.scheme = v[1], !.criteria = SchemeCriteria(v[1])]) ELSE BAD
       [] o = "--nth" -> LET r == Nth(v) IN IF r.ok THEN OK([c EXCEPT !.nth = r.val]) ELSE BAD
-      [] o = "--height" -> LET r == Height(v) IN IF r.ok THEN OK([c EXCEPT !.height = r.val]) ELSE BAD
+      [] o = "--height" -> LET r == Height(v) IN IF r.ok THEN OK([c EXCEPT !.height = r.val, !.hidx = idx]) ELSE BAD
       [] o = "--history" -> IF HistPathOK(v) THEN OK([c EXCEPT !.hon = TRUE, !.hpath = Str(v)]) ELSE BAD
       [] o = "--history-size" -> IF IsInt(v) /\ IntOf(v) >= 1 THEN OK([c EXCEPT !.hsize = IntOf(v)]) ELSE BAD
       [] o = "--walker" -> LET r == Walker(v) IN IF r.ok THEN OK([c EXCEPT !.walker = r.val]) ELSE BAD
@@ -208,50 +252,55 @@ SetVal(c, o, v) ==
       [] o = "--expect" -> LET r == KeyList(v) IN IF r.ok THEN OK([c EXCEPT !.expect = c.expect \cup r.keys]) ELSE BAD
       [] o = "--bind" -> LET r == ParseBind(c.keymap, v) IN IF r.err THEN BAD ELSE OK([c EXCEPT !.keymap = r.km])
 (* optional values: given = a value was supplied *)
-SetOpt(c, o, given, v) ==
+SetOpt(c, o, given, v, idx) ==
     CASE o = "--multi" -> IF ~given THEN OK([c EXCEPT !.multi = MaxMulti])
                           ELSE IF IsInt(v) THEN OK([c EXCEPT !.multi = IntOf(v)]) ELSE BAD
       [] o = "--sort" -> IF ~given THEN OK([c EXCEPT !.sort = 1])
                          ELSE IF IsInt(v) THEN OK([c EXCEPT !.sort = IntOf(v)]) ELSE BAD
       [] o = "--border" -> IF ~given THEN OK([c EXCEPT !.border = "rounded"])
                            ELSE IF Len(v) = 1 /\ v[1] \in BorderNames THEN OK([c EXCEPT !.border = v[1]]) ELSE BAD
+      [] o = "--tmux" -> IF ~given THEN OK([c EXCEPT !.tmux = DefaultTmux, !.tidx = idx])
+                         ELSE LET r == Tmux(v) IN IF r.ok THEN OK([c EXCEPT !.tmux = r.val, !.tidx = idx]) ELSE BAD
       [] o = "--color" -> IF ~given \/ v = <<>> THEN OK([c EXCEPT !.fg = Undef, !.bg = Undef])
                           ELSE LET r == ColorFrom([fg |-> c.fg, bg |-> c.bg], Pieces(v, ","), 1) IN
                                IF r.ok THEN OK([c EXCEPT !.fg = r.cfg.fg, !.bg = r.cfg.bg]) ELSE BAD
 
 -------------------------------------------------------------------------------
-(* the fold.  State: [cfg, pend (spelling of the option waiting for its value, "" if none), err] *)
+(* the fold.  State: [cfg, pend (spelling of the option waiting for its value, "" if none), err,                 *)
+(*                    pos (position of the current word, counted over all sources), pidx (position of pend)]      *)
 NoPend == ""
-St(c, p) == [cfg |-> c, pend |-> p, err |-> FALSE]
+St0 == [cfg |-> Default, pend |-> NoPend, err |-> FALSE, pos |-> 0, pidx |-> 0]
+Set(st, c) == [st EXCEPT !.cfg = c, !.pend = NoPend]
 Fail(st) == [st EXCEPT !.err = TRUE]
-Res(st, r) == IF r.ok THEN St(r.cfg, NoPend) ELSE Fail(st)
+Res(st, r) == IF r.ok THEN Set(st, r.cfg) ELSE Fail(st)
 
 Start(st, w) ==                                  \* w in option position
     IF w.k = "val" THEN (IF w.v = <<"-1">> THEN st ELSE Fail(st))     \* -1 is --select-1 (not projected); else unknown
     ELSE IF w.k = "att" THEN
          IF w.o \notin AttSpell THEN Fail(st)
-         ELSE IF w.o = "-s" THEN St([st.cfg EXCEPT !.sort = 1], NoPend)              \* CODE-DERIVED: -sN means --sort
-         ELSE IF w.o = "-m" THEN Res(st, SetOpt(st.cfg, "--multi", TRUE, w.v))
-         ELSE Res(st, SetVal(st.cfg, Canon(w.o), w.v))
+         ELSE IF w.o = "-s" THEN Set(st, [st.cfg EXCEPT !.sort = 1])                 \* CODE-DERIVED: -sN means --sort
+         ELSE IF w.o = "-m" THEN Res(st, SetOpt(st.cfg, "--multi", TRUE, w.v, st.pos))
+         ELSE Res(st, SetVal(st.cfg, Canon(w.o), w.v, st.pos))
     ELSE IF ~Known(w.o) THEN Fail(st)
     ELSE IF w.k = "eq" THEN
          IF w.o \in FlagSpell THEN Fail(st)                                          \* unexpected value
-         ELSE IF w.o \in ReqSpell THEN Res(st, SetVal(st.cfg, Canon(w.o), w.v))
-         ELSE Res(st, SetOpt(st.cfg, Canon(w.o), TRUE, w.v))
-    ELSE IF w.o \in FlagSpell THEN St(Flag(st.cfg, w.o), NoPend)
-    ELSE St(st.cfg, w.o)
-Absent(st) == Res(st, SetOpt(st.cfg, Canon(st.pend), FALSE, <<>>))
+         ELSE IF w.o \in ReqSpell THEN Res(st, SetVal(st.cfg, Canon(w.o), w.v, st.pos))
+         ELSE Res(st, SetOpt(st.cfg, Canon(w.o), TRUE, w.v, st.pos))
+    ELSE IF w.o \in FlagSpell THEN Set(st, Flag(st.cfg, w.o))
+    ELSE [st EXCEPT !.pend = w.o, !.pidx = st.pos]
+Absent(st) == Res(st, SetOpt(st.cfg, Canon(st.pend), FALSE, <<>>, st.pidx))
 Consume(st, w) ==
     IF st.err THEN st
     ELSE IF st.pend = NoPend THEN Start(st, w)
-    ELSE IF st.pend \in ReqSpell THEN Res(st, SetVal(st.cfg, Canon(st.pend), Atoms(w)))  \* any word is taken as the value
+    ELSE IF st.pend \in ReqSpell THEN Res(st, SetVal(st.cfg, Canon(st.pend), Atoms(w), st.pidx))  \* any word is the value
     ELSE IF st.pend \in OptNumSpell
-         THEN IF DigitWord(w) THEN Res(st, SetOpt(st.cfg, Canon(st.pend), TRUE, w.v))
+         THEN IF DigitWord(w) THEN Res(st, SetOpt(st.cfg, Canon(st.pend), TRUE, w.v, st.pidx))
               ELSE LET a == Absent(st) IN IF a.err THEN a ELSE Start(a, w)
-    ELSE IF ~DashPlus(w) THEN Res(st, SetOpt(st.cfg, Canon(st.pend), TRUE, w.v))
+    ELSE IF ~DashPlus(w) THEN Res(st, SetOpt(st.cfg, Canon(st.pend), TRUE, w.v, st.pidx))
     ELSE LET a == Absent(st) IN IF a.err THEN a ELSE Start(a, w)
+Step(st, w) == [Consume(st, w) EXCEPT !.pos = st.pos + 1]
 RECURSIVE Fold(_, _)
-Fold(st, ws) == IF ws = <<>> THEN st ELSE Fold(Consume(st, Head(ws)), Tail(ws))
+Fold(st, ws) == IF ws = <<>> THEN st ELSE Fold(Step(st, Head(ws)), Tail(ws))
 (* end of one source: a missing required value is an error; per-source range checks *)
 EndSource(st) == IF st.err THEN st
                  ELSE LET s1 == IF st.pend = NoPend THEN st ELSE IF st.pend \in ReqSpell THEN Fail(st) ELSE Absent(st) IN
@@ -265,7 +314,7 @@ FinalOK(c) == c.pointer = <<"\\NIL">> \/ TextLen(c.pointer) <= 2
 
 (* the whole thing: [err |-> TRUE, src] or [err |-> FALSE, cfg] *)
 Parse3(file, env, argv) ==
-    LET s0 == St(Default, NoPend)
+    LET s0 == St0
         s1 == IF file = <<>> THEN s0 ELSE Source(s0, file)
         s2 == IF s1.err \/ env = <<>> THEN s1 ELSE Source(s1, env)
         s3 == IF s2.err THEN s2 ELSE Source(s2, argv) IN
@@ -282,7 +331,8 @@ Proj(c) == [multi |-> c.multi, sort |-> c.sort, cycle |-> c.cycle, tac |-> c.tac
             history |-> IF c.hon THEN [on |-> TRUE, path |-> c.hpath, max |-> c.hsize]
                         ELSE [on |-> FALSE, path |-> "", max |-> 0],
             walker |-> c.walker, tabstop |-> c.tabstop,
-            pointer |-> IF c.pointer = <<"\\NIL">> THEN "\\NIL" ELSE Str(c.pointer), exit |-> c.exit]
+            pointer |-> IF c.pointer = <<"\\NIL">> THEN "\\NIL" ELSE Str(c.pointer), exit |-> c.exit,
+            tmux |-> c.tmux, popup |-> c.tmux.on /\ c.tidx >= c.hidx]   \* popup: the comparison Run() makes (inside tmux)
 Outcome(file, env, argv) == LET r == Parse3(file, env, argv) IN
                             IF r.err THEN r ELSE [err |-> FALSE, cfg |-> Proj(r.cfg)]
 
